@@ -215,14 +215,12 @@ theorem error_range_never_stops (m : Mode) (hs : Dongle.Hashes) (p : Parsed) (w 
     (hconf : deviceConforms w.script (handleLine m hs p w).evs = true) :
     ∃ lo, (handleLine m hs p w).val = .ok lo ∧ lo.exc = none ∧ lo.shutdown = false ∧
       (errorcode? lo.reply).isSome = true := by
-  have h := handleLine_safe m hs p (fun r => (errorcode? r).isSome = true)
+  obtain ⟨_, lo, h2, h3⟩ := handleLine_top (lf := false) m hs p (fun r => (errorcode? r).isSome = true)
     (fun j w r hr => by
       obtain ⟨c, hc, _⟩ := reply_code_documented m hs j w r hr
       simp [hc])
-    (by simp [errorcode_errReply]) hb w hci hconf
-  cases hv : (handleLine m hs p w).val with
-  | ok lo => rw [hv] at h; exact ⟨lo, rfl, h.2.1, h.2.2.2, h.2.2.1⟩
-  | error e => rw [hv] at h; exact h.2.elim
+    (by simp [errorcode_errReply]) hb w hci (by rw [deviceOk_false]; exact hconf)
+  exact ⟨lo, h2, h3.1, h3.2.2, h3.2.1⟩
 
 end Props.C04
 end PowHsm
